@@ -583,6 +583,9 @@ theorem ne_of_mem {t h : Cps} (ht : ∃ c ∈ t, c ∉ h) : t ≠ h := by
 theorem notin_sub {c : Nat} {small big : Cps} (hsub : ∀ x ∈ small, x ∈ big) (h : c ∉ big) : c ∉ small :=
   fun hc => h (hsub c hc)
 
+theorem outPush_nil (val : Cps) : outPush [] val = [val] := by
+  simp [outPush, wouldFuse, removeLastIfS]
+
 /-- `Out.append` then `Out.value` on an empty `Out` return a plain text item as it is, when the text has a
 character that is no punctuation, the type is not one of the specially treated ones and the spacer is blank -/
 theorem outValue_outAppend_text (p : Prefs) (hsp : isBlank p.spacer = true) (t : Cps) (ty : ItemType)
@@ -609,7 +612,7 @@ theorem outValue_outAppend_text (p : Prefs) (hsp : isBlank p.spacer = true) (t :
   unfold outAppend
   simp only [hne, Bool.false_eq_true, Bool.false_and, if_false, y1, y2, y3, y4, y5, h1, h2, h3, n1, n2, n3, n4, n5,
     removeLastIfS, List.getLast?_nil, List.nil_append, ite_self, or_self, Bool.not_false, Bool.true_and,
-    ne_eq, not_false_eq_true, decide_true, Bool.and_true, if_true]
+    ne_eq, not_false_eq_true, decide_true, Bool.and_true, if_true, outPush_nil]
   by_cases he : p.spacer.isEmpty = true
   · have : p.spacer = [] := List.isEmpty_iff.mp he
     have sp : (32 : Nat) ∈ Gen.C18.spaceChars := by decide
